@@ -140,7 +140,7 @@ fn cmp(term: G, guards: Vec<(fol::Relation, G)>) -> F {
     }))
 }
 /// percentage of "equations" of the redex templates that are chains of 2-3 guards
-pub const CHAIN_PCT: usize = 30;
+pub const CHAIN_PCT: usize = 22;
 /// a further term of a chain: a general variable (free most of the time: the assignment of the
 /// semantic check then makes the extra link true or false independently of the equation), one of the
 /// terms of the equation again (`X = t = X`), or any term
@@ -486,7 +486,7 @@ fn redex_ste(rng: &mut Rng, c: &g::Cfg, depth: usize) -> F {
     };
     // in the protected variant chains are more frequent, and at most one of the two equations is a
     // chain most of the time (the other one must be accepted as an equation for the rule to fire)
-    let pct = if protected { 45 } else { CHAIN_PCT };
+    let pct = if protected { 36 } else { CHAIN_PCT };
     let first_chain = rng.chance(50);
     let mut parts = vec![
         equation_or_chain_pct(rng, c, var_term(&x), t.clone(), if first_chain { pct } else { pct / 4 }),
